@@ -221,3 +221,43 @@ def vertex_set_states(sd, vs):
         dd = v.to_dict()
         res.append(tuple(sorted((sd.network.get_variable_name(k), int(b)) for k, b in dd.items())))
     return sorted(res)
+
+
+def to_bn_builder(net: Net) -> BooleanNetwork:
+    """Build a BooleanNetwork through the UpdateFunction constructor API only (no expression parsing),
+    so that arbitrary variable names (needing sanitization) can be used."""
+    from biodivine_aeon import UpdateFunction
+
+    bn = BooleanNetwork(list(net.names))
+    for i in range(net.n):
+        if net.tables[i] is None:
+            continue
+        for r in net.regs[i]:
+            bn.add_regulation({"source": net.names[r], "target": net.names[i], "essential": False, "sign": None})
+    for i in range(net.n):
+        t = net.tables[i]
+        r = net.regs[i]
+        if t is None:
+            continue
+        if all(x == 0 for x in t):
+            f = UpdateFunction.mk_const(bn, False)
+        elif all(x == 1 for x in t):
+            f = UpdateFunction.mk_const(bn, True)
+        else:
+            terms = []
+            for idx, val in enumerate(t):
+                if not val:
+                    continue
+                lits = []
+                for k, rr in enumerate(r):
+                    v = UpdateFunction.mk_var(bn, net.names[rr])
+                    lits.append(v if (idx >> (len(r) - 1 - k)) & 1 else UpdateFunction.mk_not(v))
+                term = lits[0]
+                for x in lits[1:]:
+                    term = UpdateFunction.mk_and(term, x)
+                terms.append(term)
+            f = terms[0]
+            for x in terms[1:]:
+                f = UpdateFunction.mk_or(f, x)
+        bn.set_update_function(net.names[i], f)
+    return bn.infer_valid_graph()
